@@ -1,5 +1,6 @@
 //! simk — deterministic simulation core for the tiny-std checks (engine A).
 pub mod dec;
+pub mod fdm;
 pub mod kern;
 pub mod mem;
 pub mod runner;
